@@ -894,6 +894,21 @@ Lemma expect_sound : forall sro R0 tr j vs t,
   tkind t = KLookup /\ tres t = Some vs.
 Proof. rewrite facts_lookup_prog, facts_register_prog. exact expect_sound_std. Qed.
 
+(* requests: _call_view only reads the candidate list, so whenever the expectation constrains the
+   lookup of a request, the request is answered by the first accepting candidate of lookup_all *)
+Lemma facts_call_view_reads_only : call_view_reads_only = true.
+Proof. reflexivity. Qed.
+
+Lemma request_answer_sound : forall sro R0 tr j vs t tbl,
+  expect sro lookup_prog register_prog (init R0) tr (fun _ => None) j = Some vs ->
+  threads (exec sro lookup_prog register_prog tr (init R0)) j = Some t -> cont t = [] ->
+  request_answer tbl (tres t) = Some (first_answer tbl vs).
+Proof.
+  intros sro R0 tr j vs t tbl He Ht Hc.
+  destruct (expect_sound sro R0 tr j vs t He Ht Hc) as [_ H].
+  unfold request_answer. rewrite facts_call_view_reads_only, H. reflexivity.
+Qed.
+
 (* ================= concrete world for examples and refutations ================= *)
 Definition sro1 (i : N) : list N :=
   if N.eqb i 1 then [1; 0]%N else if N.eqb i 11 then [11; 10; 0]%N else [].
